@@ -86,4 +86,63 @@ def Fits (max : Nat) : FT → Nat → Prop
   | .sub _ false kids rest, d => d + 1 < max ∧ Fits max kids (d + 1) ∧ Fits max rest d
   | .sub _ true kids rest, d => d < max ∧ Fits max kids (d + 1) ∧ Fits max rest d
 
+/-! ## the grammar as a relation (any well-formed input, minimal varints or not) -/
+
+/-- `Varint i v bs`: `bs` are the bytes of a varint from its `i`-th byte on and denote `v`:
+little-endian base-128 digits, continuation bit on all bytes but the last, at most ten bytes,
+a tenth byte is `0` or `1`. -/
+inductive Varint : Nat → Nat → Bytes → Prop
+  | last {i b : Nat} : b < 128 → i ≤ 9 → (i = 9 → b < 2) → Varint i b [b]
+  | more {i b v : Nat} {bs : Bytes} : 128 ≤ b → i < 9 → Varint (i + 1) v bs →
+      Varint i (b - 128 + 128 * v) (b :: bs)
+
+/-- a tag: varint of `num << 3 | wt`, field number in `1 .. 2^31-1` -/
+def TagRepr (num wt : Nat) (bs : Bytes) : Prop :=
+  ∃ x, Varint 0 x bs ∧ x / 8 = num ∧ x % 8 = wt ∧ 1 ≤ num ∧ num ≤ 2147483647
+
+def le32 (b0 b1 b2 b3 : Nat) : Nat := b0 + 256 * b1 + 65536 * b2 + 16777216 * b3
+def le64 (b0 b1 b2 b3 b4 b5 b6 b7 : Nat) : Nat :=
+  b0 + 256 * b1 + 65536 * b2 + 16777216 * b3 + 4294967296 * b4 + 1099511627776 * b5
+    + 281474976710656 * b6 + 72057594037927936 * b7
+
+/-- payload of a packed field with element wire type `et` -/
+inductive Elems : Nat → List Nat → Bytes → Prop
+  | nil {et : Nat} : (et = 0 ∨ et = 1 ∨ et = 5) → Elems et [] []
+  | varint {v : Nat} {vs : List Nat} {pre rest : Bytes} :
+      Varint 0 v pre → Elems 0 vs rest → Elems 0 (v :: vs) (pre ++ rest)
+  | fixed32 {b0 b1 b2 b3 : Nat} {vs : List Nat} {rest : Bytes} :
+      Elems 5 vs rest → Elems 5 (le32 b0 b1 b2 b3 :: vs) (b0 :: b1 :: b2 :: b3 :: rest)
+  | fixed64 {b0 b1 b2 b3 b4 b5 b6 b7 : Nat} {vs : List Nat} {rest : Bytes} :
+      Elems 1 vs rest →
+      Elems 1 (le64 b0 b1 b2 b3 b4 b5 b6 b7 :: vs) (b0 :: b1 :: b2 :: b3 :: b4 :: b5 :: b6 :: b7 :: rest)
+
+mutual
+/-- `ValRepr o num v wt bs`: `bs` is the value part of a field `num` with wire type `wt`
+whose parsed value under options `o` is `v` -/
+inductive ValRepr (o : Opts) : Nat → V → Nat → Bytes → Prop
+  | varint {num v : Nat} {bs : Bytes} : Varint 0 v bs → ValRepr o num (.leaf (.varint v)) 0 bs
+  | fixed64 {num b0 b1 b2 b3 b4 b5 b6 b7 : Nat} :
+      ValRepr o num (.leaf (.fixed64 (le64 b0 b1 b2 b3 b4 b5 b6 b7))) 1 [b0, b1, b2, b3, b4, b5, b6, b7]
+  | fixed32 {num b0 b1 b2 b3 : Nat} :
+      ValRepr o num (.leaf (.fixed32 (le32 b0 b1 b2 b3))) 5 [b0, b1, b2, b3]
+  | bytes {num : Nat} {lb payload : Bytes} : Varint 0 payload.length lb →
+      o.packed.contains num = false → o.msg.contains num = false →
+      ValRepr o num (.leaf (.bytes payload)) 2 (lb ++ payload)
+  | packed {num et : Nat} {vs : List Nat} {lb pb : Bytes} : Varint 0 pb.length lb →
+      o.packed.contains num = true → o.elemType.lookup num = some et → Elems et vs pb →
+      ValRepr o num (.leaf (.packed et vs)) 2 (lb ++ pb)
+  | msg {num : Nat} {kids : FT} {lb kb : Bytes} : Varint 0 kb.length lb →
+      o.packed.contains num = false → o.msg.contains num = true → Encodes o kids kb →
+      ValRepr o num (.sub false kids) 2 (lb ++ kb)
+  | group {num : Nat} {kids : FT} {kb eb : Bytes} : Encodes o kids kb → TagRepr num 4 eb →
+      ValRepr o num (.sub true kids) 3 (kb ++ eb)
+/-- `Encodes o t bs`: the byte string `bs` is, from its first to its last byte, a sequence of
+well-formed fields, and `t` is what they say under the options `o` -/
+inductive Encodes (o : Opts) : FT → Bytes → Prop
+  | nil : Encodes o .nil []
+  | cons {num wt : Nat} {v : V} {rest : FT} {tb vb rb : Bytes} :
+      TagRepr num wt tb → ValRepr o num v wt vb → Encodes o rest rb →
+      Encodes o (FT.cons num v rest) (tb ++ vb ++ rb)
+end
+
 end Spec.Wire
